@@ -62,6 +62,20 @@ func c01Profiles(tier string) []Profile {
 		Letters: coreLetters(keys, []int32{1, 2, 3}, [][]byte{bs(""), bs("ww")}, true)}
 	ps = append(ps, core.Profile(fmt.Sprintf("every history of length <= %d over the 28-letter core alphabet (Set k in{a,b,c} p in{1,2,3} v in{\"\",\"ww\"}; Delete; Flush; Evict with every random branch; Reopen; GetItem with value; full visit) on one file-backed collection", dCore)))
 
+	// the same alphabet from a non-initial state: three items already flushed
+	// (tree persisted, partly cached), so that short histories reach
+	// "mutate persisted data, flush, re-open"
+	persisted := &SeqProfile{Name: "persisted", Keys: keys, Depth: dCore - 1, Mon: harness.Monitors{Durable: true},
+		Init: func(w *harness.World) {
+			w.SetCollection("x", "nil")
+			w.SetItem("x", kA, 2, bs("va"))
+			w.SetItem("x", kB, 3, bs("vb"))
+			w.SetItem("x", kC, 1, bs(""))
+			w.Flush()
+		},
+		Letters: coreLetters(keys, []int32{1, 2, 3}, [][]byte{bs(""), bs("ww")}, true)}
+	ps = append(ps, persisted.Profile(fmt.Sprintf("initial state: items a(2) b(3) c(1) flushed; every history of length <= %d over the core alphabet; additionally a copy of the file must re-open to the last flushed state", dCore-1)))
+
 	mem := &SeqProfile{Name: "mem", Keys: keys, Depth: dMem, NoFile: true, Init: initX,
 		Letters: func(w *harness.World) []Letter {
 			var ls []Letter
